@@ -749,10 +749,14 @@ def get_bs_cached(Rmax, order=2, odd=False, direction='inverse', reg=None,
                 # loop over angular orders
                 for An in Af():
                     U, s, Vh = svd(An.T)
+                    # radii without data give zero SVs, they must be dropped
+                    rank = np.count_nonzero(s > s[0] * len(s) *
+                                            np.finfo(float).eps)
+                    k = min(smax, rank)
                     # truncate matrices
-                    U = U[:, :smax]
-                    s = 1 / s[:smax]  # inverse
-                    Vh = Vh[:smax]
+                    U = U[:, :k]
+                    s = 1 / s[:k]  # inverse
+                    Vh = Vh[:k]
                     # regularized inverse for this angular order
                     _tri.append((U * s).dot(Vh))
             else:
